@@ -1594,12 +1594,15 @@ def cross_objects(blob, M, share, hist, spec, seed, t, counts, full=True):
         if S.c is not None:
             objs["copy"] = [S.c, S.mc]
         objs["deepcopy"] = [_copy.deepcopy(S.v), S.mv.clone()]
-        objs["pickle"] = [pickle.loads(pickle.dumps(S.v)), S.mv.clone()]
+        if full:
+            objs["pickle"] = [pickle.loads(pickle.dumps(S.v)), S.mv.clone()]
         src_only = {"shallow_copy": [_copy.copy(S.v), S.mv]}  # alias of main: its model IS main's model
         if S.s is not None:
             src_only["slice"] = [S.s, S.ms]
         # make the two deep copies differ from main (and from each other) before they are used alternately with it
         for who, k in (("deepcopy", 11), ("pickle", 13)):
+            if who not in objs:
+                continue
             vec, m = objs[who]
             for fi, f in enumerate(m.fields):
                 vec[f] += k + fi
@@ -1610,19 +1613,20 @@ def cross_objects(blob, M, share, hist, spec, seed, t, counts, full=True):
         names = list(objs)
         # a kept slice shares its arrays with main (by design): it is only a reliable source BEFORE main is written in
         # place, so its pairs come first and it is not used for the cell spellings at the end of the chain
-        pairs = [(d, s_) for d in ("deepcopy", "pickle") for s_ in src_only]
+        pairs = [(d, s_) for d in ("deepcopy", "pickle") if d in objs for s_ in src_only]
         pairs += [(d, s_) for d in names for s_ in names if d != s_]
         if not full:
-            keep = {("main", "deepcopy"), ("deepcopy", "main"), ("main", "copy"), ("copy", "main"), ("pickle", "deepcopy"), ("pickle", "shallow_copy"), ("independent", "main"), ("deepcopy", "slice")}
+            # states of depth >= 2: the pairs around main and the view spellings only (everything in states of depth <= 1)
+            keep = {("main", "deepcopy"), ("deepcopy", "main"), ("main", "copy"), ("copy", "main"), ("deepcopy", "slice"), ("deepcopy", "shallow_copy")}
             pairs = [p_ for p_ in pairs if p_ in keep]
         ops = []
         for d, s_ in pairs:
             for same in (True, False):
-                for kind in ("assign_view", "assign_flatten", "set_flattened_view", "iadd_view"):
+                for kind in ("assign_view", "assign_flatten", "set_flattened_view", "iadd_view") if full else ("assign_view", "set_flattened_view"):
                     ops.append((kind, d, s_, same))
         for d, s_ in pairs:
             if s_ != "slice":
-                ops += [("assign_cell", d, s_, True), ("set_data_from_get_data", d, s_, True)]
+                ops += [("assign_cell", d, s_, True)] + ([("set_data_from_get_data", d, s_, True)] if full else [])
         return ops
 
     S, objs, src_only = fresh()
